@@ -53,6 +53,14 @@ func (s *Service) VerifDump() []VerifTraffic {
 	return out
 }
 
+// VerifBalancePtr returns the *big.Int the service currently holds as its chain balance
+// (for pointer-identity comparison only; callers must not modify it).
+func (s *Service) VerifBalancePtr() *big.Int {
+	s.peersLock.Lock()
+	defer s.peersLock.Unlock()
+	return s.trafficPeers.balance
+}
+
 // VerifBalance returns copies of the service-wide chain balance and total paid out.
 func (s *Service) VerifBalance() (balance, totalPaidOut *big.Int) {
 	s.peersLock.Lock()
